@@ -53,7 +53,8 @@ def make_event(case):
 
             def rec_k(node, depth, data, calls_k=calls_k, k=k):
                 calls_k.append([objs.of(node), depth])
-                return STOP if len(calls_k) == k else None
+                # the stop signal is a value ("stop"): every other time it is handed back as an equal string that is not the library's constant
+                return (STOP if k % 2 else "".join(["st", "op"])) if len(calls_k) == k else None
             try:
                 ret = getattr(root, meth)(rec_k)
                 rets = "none" if ret is None else str(ret)
@@ -137,6 +138,99 @@ def make_event(case):
     return ev
 
 
+def edit_session(case):
+    """look-ups on every node, an in-place edit, the same look-ups on the same objects again (twice over)"""
+    from mathy_core import expressions as E
+    out = []
+    for how in ("rotate", "swap", "newroot", "unlink"):
+        try:
+            probe = build(case)
+        except BaseException:  # noqa
+            return out
+        n = len(list(project.ObjTable().keep)) if False else None
+        count = len(_inorder(probe))
+        for k in range(count):
+            root = build(case)
+            objs = project.ObjTable()
+            project.absorb(objs, [root])
+            nodes = list(objs.keep)
+            if case.get("dupids"):
+                for j, nd in enumerate(nodes):
+                    nd.id = "id%d" % (j % max(1, len(nodes) - 1))
+            target = _inorder(root)[k]
+            steps = []
+
+            def ask(after):
+                roots_now = {id(nd.get_root()): nd.get_root() for nd in nodes}
+                h = project.snapshot(objs, list(roots_now.values()), payload=True)
+                ids = sorted({str(nd.id) for nd in nodes})[:5] + ["no-such-id"]
+                st = {"after": after, "h": h, "findid": [], "lists": [], "roots": []}
+                for nd in nodes:
+                    for i in ids:
+                        try:
+                            got = objs.of(nd.find_id(i))
+                        except BaseException:  # noqa
+                            got = -1
+                        st["findid"].append({"start": objs.of(nd), "id": i, "got": got})
+                    try:
+                        st["lists"].append({"start": objs.of(nd), "got": [objs.of(x) for x in nd.to_list("inorder")]})
+                    except BaseException:  # noqa
+                        st["lists"].append({"start": objs.of(nd), "got": [-1]})
+                    try:
+                        st["roots"].append({"start": objs.of(nd), "got": objs.of(nd.get_root())})
+                    except BaseException:  # noqa
+                        st["roots"].append({"start": objs.of(nd), "got": -1})
+                steps.append(st)
+            ask("nothing")
+            try:
+                if how == "rotate":
+                    if target.parent is None:
+                        continue
+                    target.rotate()
+                elif how == "swap":
+                    if target.left is None or target.right is None:
+                        continue
+                    l, r = target.left, target.right
+                    target.set_left(r)
+                    target.set_right(l)
+                elif how == "newroot":
+                    if k > 0:
+                        continue
+                    extra = E.AddExpression(root, E.ConstantExpression(1))
+                    project.absorb(objs, [extra])
+                    nodes = list(objs.keep)
+                elif how == "unlink":
+                    if target.parent is None:
+                        continue
+                    par = target.parent
+                    par.set_side(E.ConstantExpression(7), par.get_side(target))
+                    target.parent = None
+                    project.absorb(objs, [par.get_root()])
+                    nodes = list(objs.keep)
+            except BaseException:  # noqa
+                continue
+            ask(how)
+            if how == "rotate" and target.parent is not None:
+                try:
+                    target.rotate()
+                    ask("rotate_twice")
+                except BaseException:  # noqa
+                    pass
+            out.append({"typ": "editsession", "cls": "expr", "steps": steps})
+    return out
+
+
+def _inorder(root):
+    out = []
+
+    def rec(n):
+        if n is None:
+            return
+        rec(n.left); out.append(n); rec(n.right)
+    rec(root)
+    return out
+
+
 def domain(ctx):
     n = 6 if ctx.quick else 9
     cases = []
@@ -150,7 +244,7 @@ def domain(ctx):
     rng = random.Random(ctx.seed)
     for _ in range(60 if ctx.quick else 600):   # seeded random larger shapes
         cases.append({"shape": random_shape(rng, rng.randint(n + 1, 14)), "cls": rng.choice(["btn", "expr"]), "dupids": True})
-    return cases, "all %d binary tree shapes with <= %d nodes (plain nodes; expression-typed nodes for the smaller ones) + seeded random shapes up to 14 nodes; 3 orders x every stop position; all look-ups on every node" % (
+    return cases, "all %d binary tree shapes with <= %d nodes (plain nodes; expression-typed nodes for the smaller ones) + seeded random shapes up to 14 nodes; 3 orders x every stop position (the stop signal alternately the library constant and an equal string built at run time); all look-ups on every node; for expression trees of 2..5 (thorough: 7) nodes, look-ups from every node repeated on the same objects after rotate / rotate twice / swapped operands / a new root / a replaced subtree at every node" % (
         len(shapes.shapes_upto(n)), n)
 
 
@@ -162,7 +256,7 @@ def random_shape(rng, n):
 
 
 def sig(ev, clauses):
-    return "C14|%s|%s" % (",".join(clauses), ev["cls"])
+    return "C14|%s|%s" % (",".join(sorted(clauses)), ev["cls"])
 
 
 def run(ctx, cases=None):
@@ -179,14 +273,20 @@ def run(ctx, cases=None):
     from multiprocessing import Pool
     with Pool(16) as pool:
         events = pool.map(make_event, cases, chunksize=50)
+        sess_cases = [c for c in cases if c["cls"] == "expr" and 2 <= shapes.size(tuple_shape(c["shape"])) <= (5 if ctx.quick else 7)]
+        sessions = [(c, e) for c, l in zip(sess_cases, pool.map(edit_session, sess_cases, chunksize=5)) for e in l]
+    res.extra["edit_sessions"] = len(sessions)
     broken = [(k, e) for k, e in enumerate(events) if e.get("setup_exc")]
     keep = [k for k, e in enumerate(events) if not e.get("setup_exc")]
     allcases, cases = cases, [cases[k] for k in keep]
     events = [events[k] for k in keep]
+    nvisit = len(events)
+    events = events + [e for _, e in sessions]
+    cases = cases + [c for c, _ in sessions]
     fails, st = tlc.validate_sharded("TraceHeap", "TraceHeap.cfg", events, ctx.work, shard_size=max(100, len(events) // 32 + 1))
     res.states += st["distinct"]; res.transitions += st["generated"]
     res.traces = len(events)
-    res.evaluations = sum(3 * (e["h"]["n"] + 2) + 6 * e["h"]["n"] for e in events)
+    res.evaluations = sum(3 * (e["h"]["n"] + 2) + 6 * e["h"]["n"] for e in events[:nvisit]) + sum(len(st_["findid"]) + 2 * len(st_["lists"]) for e in events[nvisit:] for st_ in e["steps"])
     res.distinct_nontrivial = len({(str(c["shape"]), c["cls"]) for c in cases if shapes.size(tuple_shape(c["shape"])) >= 3})
     res.rule += " | evaluations = traversal runs + look-up calls; non-trivial = distinct (shape, node class) with >= 3 nodes"
     e0 = events[min(40, len(events) - 1)]
